@@ -8,6 +8,9 @@ PRELUDE = '''class Base(def bx: Int)
 class Child(bx: Int, def cy: Int): Base(bx)
     def more(self) -> Int => self.cy
 
+class GrandChild(bx: Int, cy: Int, def gz: Int): Child(bx, cy)
+    def most(self) -> Int => self.gz
+
 class Other(def oz: Str)
     def name(self) -> Str => self.oz
 
@@ -39,7 +42,7 @@ def f3(a: Int, b: Str, c: Int := 1, d: Int := 2) -> Int => a + c
 '''
 
 PRIM_SUB = {('Int', 'Float'), ('Int', 'Complex'), ('Float', 'Complex')}
-CLASS_PARENT = {'Child': ['Base'], 'Base': [], 'Other': [], 'Holder': [], 'Boom': ['Exception']}
+CLASS_PARENT = {'Child': ['Base'], 'GrandChild': ['Child'], 'Base': [], 'Other': [], 'Holder': [], 'Boom': ['Exception']}
 
 
 def ancestors(c):
@@ -78,7 +81,11 @@ FILLERS = {
     'Base': [('new', [], 'Base(1)'), ('var', ['def fvo: Base := Base(1)'], 'fvo'), ('ivar', ['def fwo := Base(1)'], 'fwo')],
     'Child': [('new', [], 'Child(1, 2)'), ('var', ['def fvc: Child := Child(1, 2)'], 'fvc')],
     'Other': [('new', [], 'Other("o")'), ('var', ['def fvx: Other := Other("o")'], 'fvx')],
+    'GrandChild': [('new', [], 'GrandChild(1, 2, 3)'), ('var', ['def fvg: GrandChild := GrandChild(1, 2, 3)'], 'fvg')],
 }
+
+# a second definition of the filler's variable name, of another type, in a scope that has ended before the use
+OTHER_TY = {'Int': ('Str', '"q"'), 'Float': ('Str', '"q"'), 'Str': ('Int', '9'), 'Bool': ('Str', '"q"'), 'Base': ('Int', '9'), 'Child': ('Int', '9'), 'Other': ('Int', '9'), 'GrandChild': ('Int', '9')}
 
 # use sites with one typed hole: (name, expected type, setup lines, statement with @H@)
 USES = [
@@ -130,6 +137,10 @@ ARITY = [
     ('m3-1', 'print(Holder(1, 1.5, "s", Base(1)).m3(1))', False), ('m3-2', 'print(Holder(1, 1.5, "s", Base(1)).m3(1, 2))', True),
     ('m3-3', 'print(Holder(1, 1.5, "s", Base(1)).m3(1, 2, "x"))', True), ('m3-4', 'print(Holder(1, 1.5, "s", Base(1)).m3(1, 2, "x", 4))', False),
     ('inherited-method-0', 'print(Child(1, 2).get(1))', False), ('inherited-method-ok', 'print(Child(1, 2).get())', True),
+    ('inherited-2-levels-ok', 'print(GrandChild(1, 2, 3).get())', True), ('inherited-2-levels-too-many', 'print(GrandChild(1, 2, 3).get(1))', False),
+    ('inherited-1-of-2-levels-ok', 'print(GrandChild(1, 2, 3).more())', True), ('own-method-of-grandchild', 'print(GrandChild(1, 2, 3).most())', True),
+    ('inherited-2-levels-through-variable', 'print(fb(GrandChild(1, 2, 3)) + GrandChild(4, 5, 6).get())', True),
+    ('ctor-grandchild-2', 'def ao := GrandChild(1, 2)', False), ('ctor-grandchild-3', 'def ao := GrandChild(1, 2, 3)', True),
     ('nested-arg-arity', 'print(fi(f2(1)))', False), ('nested-arg-arity-ok', 'print(fi(f2(1, 2)))', True),
     ('ctor-0', 'def ao := Base()', False), ('ctor-1', 'def ao := Base(1)', True), ('ctor-2', 'def ao := Base(1, 2)', False),
     ('ctor-child-1', 'def ao := Child(1)', False), ('ctor-child-2', 'def ao := Child(1, 2)', True), ('ctor-child-3', 'def ao := Child(1, 2, 3)', False),
@@ -195,9 +206,46 @@ def c05_cells():
                     gid = f"{uname.split('-')[0]}:{cat}:{ctx}"
                     out.append((cid, gid, wrap(stmts, ctx), conforms, {'use': uname, 'expected_type': ety, 'filler_type': fty, 'form': fname, 'ctx': ctx, 'category': cat,
                                                                         'rule': 'argument' if uname.split('-')[0] in ('call', 'nested', 'method', 'ctor') else 'initialiser'}))
+    # the filler variable's name is defined a second time, with another type, in a scope that ends before the use:
+    # in a nested block, as parameter of a function, as local of a function. The use still sees the first definition.
+    REUSE_USES = ('call-int', 'call-float', 'call-str', 'call-base', 'call-child', 'nested-call-arg', 'method-int', 'method-base', 'method-child', 'ctor-int', 'ctor-base',
+                  'local-int', 'local-base', 'reassign-int', 'reassign-base', 'field-int', 'field-base')
+    for uname, ety, usetup, stmt in USES:
+        if uname not in REUSE_USES:
+            continue
+        for fty, forms in FILLERS.items():
+            for fname, fsetup, expr in forms:
+                if fname != 'var':
+                    continue
+                oty, oval = OTHER_TY[fty]
+                conforms = is_sub(fty, ety)
+                cat = category(fty, ety)
+                reuse = {
+                    'inner-block': (['if 1 < 2 then', f'    def {expr}: {oty} := {oval}', f'    print({expr})'], CONTEXTS),
+                    'inner-loop': (['for zq in 0 .. 1 do', f'    def {expr}: {oty} := {oval}', f'    print({expr})'], ['top', 'fun', 'method']),
+                    'later-function-parameter': ([f'def reusef({expr}: {oty}) -> Int => 1'], ['top']),
+                    'later-function-local': (['def reuseg() -> Int =>', f'    def {expr}: {oty} := {oval}', '    1'], ['top']),
+                    'later-lambda-parameter': ([f'def reusel := \\{expr}: {oty} => 1'], ['top', 'fun']),
+                }
+                for rname, (rlines, ctxs) in reuse.items():
+                    for ctx in ctxs:
+                        stmts = usetup + fsetup + rlines + [stmt.replace('@H@', expr)]
+                        out.append((f'{uname}<-{fty}/var+{rname}@{ctx}', f"reuse-{rname}:{uname.split('-')[0]}:{cat}:{ctx}", wrap(stmts, ctx), conforms,
+                                    {'use': uname, 'expected_type': ety, 'filler_type': fty, 'form': 'var+' + rname, 'ctx': ctx, 'category': cat, 'rule': 'scope'}))
     for aname, stmt, conforms in ARITY:
         for ctx in CONTEXTS:
             out.append((f'arity:{aname}@{ctx}', f'arity:{"ok" if conforms else "bad"}:{ctx}', wrap([stmt], ctx), conforms, {'use': 'arity', 'ctx': ctx, 'rule': 'arity', 'stmt': stmt}))
+    # a diamond: the same ancestor along two paths (and a parent that is itself an ancestor's child)
+    DIAMOND_TOP = ['class DLeft(bx: Int): Base(bx)', '    def left(self) -> Int => 1', 'class DRight(bx: Int): Base(bx)', '    def right(self) -> Int => 2',
+                   'class DJoin(bx: Int): DLeft(bx), DRight(bx)', '    def joined(self) -> Int => 3', 'class DDeep(bx: Int): DJoin(bx), DLeft(bx)', '    def deep(self) -> Int => 4']
+    DIAMOND = [('base-param<-join', 'print(fb(DJoin(1)))', True), ('inherited-through-both', 'print(DJoin(1).get() + DJoin(1).left() + DJoin(1).right())', True),
+               ('left-variable<-join', 'def dj: DLeft := DJoin(1)', True), ('right-variable<-join', 'def dj: DRight := DJoin(1)', True), ('base-variable<-join', 'def dj: Base := DJoin(1)', True),
+               ('other-variable<-join', 'def dj: Other := DJoin(1)', False), ('child-param<-join', 'print(fc(DJoin(1)))', False), ('join-variable<-left', 'def dj: DJoin := DLeft(1)', False),
+               ('base-param<-deep', 'print(fb(DDeep(1)))', True), ('join-variable<-deep', 'def dj: DJoin := DDeep(1)', True), ('deep-inherits-all', 'print(DDeep(1).get() + DDeep(1).joined())', True)]
+    for dname, stmt, conforms in DIAMOND:
+        for ctx in CONTEXTS:
+            out.append((f'diamond:{dname}@{ctx}', f"diamond:{'ok' if conforms else 'bad'}:{dname}:{ctx}", wrap([stmt], ctx, DIAMOND_TOP), conforms,
+                        {'use': 'diamond', 'ctx': ctx, 'rule': 'argument', 'stmt': stmt}))
     # tuple and list typed positions: every component must conform
     GEN_USES = [('call-tuple2', '(Int, Int)', 'print(ft2(@H@))'), ('local-tuple2', '(Int, Int)', 'def gl: (Int, Int) := @H@'), ('call-tuple3', '(Int, Str, Int)', 'print(ft3(@H@))'),
                 ('method-tuple2', '(Int, Int)', 'print(GH().mt2(@H@))'), ('call-list', 'List[Int]', 'print(flist(@H@))'), ('local-list', 'List[Int]', 'def gl: List[Int] := @H@'),
@@ -303,6 +351,18 @@ def c06_cells():
             ('plain', [], v2, T),
             ('plain-var', [f'def pv: {T} := {v2}'], 'pv', T),
         ]
+        # the same name defined again, with the other nullability, in a scope that has ended before the use
+        sources += [
+            ('nvar-set+inner-nonnull-shadow', [f'def nv: {T}? := {v}', 'if 1 < 2 then', f'    def nv: {T} := {v2}', '    print("in")'], 'nv', T + '?'),
+            ('plain-var+inner-nullable-shadow', [f'def pv: {T} := {v2}', 'if 1 < 2 then', f'    def pv: {T}? := None', '    print("in")'], 'pv', T),
+            ('nvar-none+loop-nonnull-shadow', [f'def nv: {T}? := None', 'for zq in 0 .. 1 do', f'    def nv: {T} := {v2}', '    print("in")'], 'nv', T + '?'),
+        ]
+        # a conditional expression with a nullable branch is itself nullable
+        sources += [
+            ('ifx-none', [], f'(if 1 < 2 then {v2} else None)', T + '?'),
+            ('ifx-nvar', [f'def nv: {T}? := {v}'], f'(if 1 < 2 then {v2} else nv)', T + '?'),
+            ('ifx-plain', [f'def pv: {T} := {v}'], f'(if 1 < 2 then {v2} else pv)', T),
+        ]
         SUB = {'Float': ('Int', '3'), 'Base': ('Child', 'Child(3, 4)')}
         if T in SUB:
             st, sv = SUB[T]
@@ -328,23 +388,42 @@ def c06_cells():
             for sname, ssetup, expr, sty in sources:
                 if uname in ('operand', 'receiver', 'receiver-field') and sname in ('sub-plain', 'sub-qdefault'):
                     continue    # whether `3 * 2.0` is defined is not a nullability question
+                if uname in ('operand', 'receiver', 'receiver-field') and sname.startswith('ifx-'):
+                    continue    # a conditional expression as operand gets no type at all (language limit, see Appendix A)
+                if sname.startswith('ifx-') and uname.startswith(('field', 'method-arg')) and (uname, sname) != ('field', 'ifx-plain'):
+                    continue    # one representative of "member access in a later branch that contains a conditional expression" (listed finding) is enough
                 must = is_sub(sty, ety)
                 direction = ('null-into-nonnull' if not must else ('into-nullable' if ety.endswith('?') else 'nonnull-into-nonnull'))
                 for ctx in CONTEXTS:
                     stmts = usetup + ssetup + [stmt.replace('@H@', expr)]
                     src = wrap(stmts, ctx).replace(PRELUDE, pre)
                     cid = f'{T}:{uname}<-{sname}@{ctx}'
-                    gid = f"{uname}:{sname}:{ctx}"
+                    # scope-reuse variants are judged in the group of their base source: where the base form is a listed finding the variant adds nothing
+                    gid = f"{uname}:{sname.split('+')[0]}:{ctx}"
                     out.append((cid, gid, src, must, {'T': T, 'use': uname, 'source': sname, 'ctx': ctx, 'direction': direction}))
+        # a later function re-uses the variable's name for a parameter / local of the other nullability (top level only)
+        for uname, usetup, stmt, ety in uses:
+            for sname, ssetup, expr, sty, rl in (
+                    ('nvar-set+function-local-nonnull', [f'def nv: {T}? := {v}'], 'nv', T + '?', ['def shadowf() -> Int =>', f'    def nv: {T} := {v2}', '    1']),
+                    ('nvar-none+function-param-nonnull', [f'def nv: {T}? := None'], 'nv', T + '?', [f'def shadowp(nv: {T}) -> Int => 1']),
+                    ('plain-var+function-local-nullable', [f'def pv: {T} := {v2}'], 'pv', T, ['def shadowg() -> Int =>', f'    def pv: {T}? := None', '    1'])):
+                must = is_sub(sty, ety)
+                stmts = usetup + ssetup + rl + [stmt.replace('@H@', expr)]
+                src = wrap(stmts, 'top').replace(PRELUDE, pre)
+                out.append((f'{T}:{uname}<-{sname}@top', f"{uname}:{sname.split('+')[0]}:top", src, must, {'T': T, 'use': uname, 'source': sname, 'ctx': 'top',
+                                                                                          'direction': 'null-into-nonnull' if not must else 'conforming'}))
         # returns
         for sname, ssetup, expr, sty in sources:
             for rty in (T, T + '?'):
                 must = is_sub(sty, rty)
-                for form, lines in (('tail', ['@R@']), ('return', ['return @R@']), ('if-return', ['if k > 0 then', '    return @R@', '@V@'])):
+                for form, lines in (('tail', ['@R@']), ('return', ['return @R@']), ('if-return', ['if k > 0 then', '    return @R@', '@V@']),
+                                    ('loop-return', ['for z in 0 .. k do', '    return @R@', '@V@']), ('while-return', ['while k > 5 do', '    return @R@', '@V@'])):
+                    if rty.endswith('?') and (form in ('loop-return', 'while-return') or sname.startswith('ifx-')):
+                        continue    # returns into T? from a nested block are a listed finding for every source: the added forms and sources look at returns into T
                     body = ssetup + [l.replace('@R@', expr).replace('@V@', v) for l in lines]
                     top = [f'def retf(k: Int) -> {rty} =>'] + ind(body, 1)
                     src = pre + '\n' + '\n'.join(top) + f'\n\ndef rr: {rty} := retf(1)\nprint("done")\n'
-                    out.append((f'{T}:return{"-nullable" if rty.endswith("?") else ""}<-{sname}@{form}', f"return{'-nullable' if rty.endswith('?') else ''}:{sname}:{form}",
+                    out.append((f'{T}:return{"-nullable" if rty.endswith("?") else ""}<-{sname}@{form}', f"return{'-nullable' if rty.endswith('?') else ''}:{sname.split('+')[0]}:{form}",
                                 src, must, {'T': T, 'use': 'return', 'source': sname, 'ctx': 'fun/' + form}))
         # calls through a function-typed parameter: `def cuse(h: (P) -> Int, y: S) -> Int => h(y)`
         stys = sorted({sty for _, _, _, sty in sources if sty != 'None'})
@@ -412,11 +491,15 @@ def c07_cells():
     # local variable forms x fin x op x nesting
     forms = {
         'plain': 'def @F@x := 3', 'annotated': 'def @F@x: Int := 3', 'tuple': 'def @F@(x, xo) := (3, 4)',
+        'nested-tuple': 'def @F@(xo, (x, xp)): (Int, (Int, Int)) := (3, (4, 5))', 'nested-tuple-first': 'def @F@((x, xp), xo): ((Int, Int), Int) := ((3, 4), 5)',
+        'annotated-tuple': 'def @F@(xo, x): (Int, Int) := (3, 4)',
     }
     for form, tmpl in forms.items():
         for fin in (False, True):
             d = tmpl.replace('@F@', 'fin ' if fin else '')
             for op, val in ASSIGN_OPS:
+                if op != ':=' and form in ('nested-tuple', 'nested-tuple-first', 'annotated-tuple'):
+                    continue    # components of an annotated tuple pattern get no type: `x + 1` is not typable there, which is not a question of mutability
                 for nest, lines in NESTINGS.items():
                     if op != ':=' and nest not in ('same-block', 'in-if', 'in-for', 'nested-2'):
                         continue
@@ -707,6 +790,23 @@ def c09_cells():
         ('handle-arm-def-after', ['boomf() handle', '    zerr: Boom =>', '        def x := 1', '@U@'], False),
         ('handle-var-inside', ['boomf() handle', '    zerr: Boom =>', '        print("h")'], True),
         ('comprehension-var-after', ['def zl := [x | x in 0 .. 3]', '@U@'], False),
+        ('dict-comprehension-stmt-var-after', ['def zl := [1, 2, 3]', '{ x => x * 2 | x in zl }', '@U@'], False),
+        ('set-comprehension-stmt-var-after', ['def zl := [1, 2, 3]', '{ x * 2 | x in zl }', '@U@'], False),
+        ('list-comprehension-stmt-var-after', ['def zl := [1, 2, 3]', '[ x * 2 | x in zl ]', '@U@'], False),
+        ('dict-comprehension-def-var-after', ['def zl := [1, 2, 3]', 'def zd := { x => x * 2 | x in zl }', '@U@'], False),
+        ('set-comprehension-def-var-after', ['def zl := [1, 2, 3]', 'def zd := { x * 2 | x in zl }', '@U@'], False),
+        ('dict-comprehension-match-subject', ['def zl := [1, 2, 3]', 'match { x => x * 2 | x in zl }', '    other =>', '        @U@'], False),
+        ('list-comprehension-match-subject', ['def zl := [1, 2, 3]', 'match [ x * 2 | x in zl ]', '    other =>', '        @U@'], False),
+        ('comprehension-in-argument-var-after', ['def zl := [1, 2, 3]', 'print([ x * 2 | x in zl ])', '@U@'], False),
+        # the same with the defining path NOT taken at run time (C04 executes whatever is accepted: NameError / UnboundLocalError)
+        ('only-then-not-taken', ['if 1 > 2 then', '    def x := 1', '@U@'], False),
+        ('only-else-not-taken', ['if 1 < 2 then', '    print("n")', 'else', '    def x := 1', '@U@'], False),
+        ('one-match-arm-not-taken', ['match 2', '    1 =>', '        def x := 1', '    _ =>', '        print("n")', '@U@'], False),
+        ('loop-body-zero-iterations-then-after', ['for zi in 0 .. 0 do', '    def x := 1', '@U@'], False),
+        ('while-body-never-then-after', ['def zw := 5', 'while zw < 1 do', '    def x := 1', '    zw := zw + 1', '@U@'], False),
+        ('handle-arm-def-not-raised-after', ['fi(1) handle', '    zerr: Boom =>', '        def x := 1', '@U@'], False),
+        ('only-then-no-else-nested', ['if 1 < 2 then', '    if 2 < 3 then', '        def x := 1', '@U@'], False),
+        ('only-then-attached', ['if 1 < 2 then def x := 1', '@U@'], False),
         ('inner-block-def-used-inner', ['if 1 < 2 then', '    def x := 1', '    @U@'], True),
         ('outer-def-used-inner-2', ['def x := 1', 'if 1 < 2 then', '    for zi in 0 .. 2 do', '        @U@'], True),
         ('outer-def-used-inner-3', ['def x := 1', 'for zi in 0 .. 2 do', '    if zi < 5 then', '        match zi', '            0 =>', '                @U@', '            _ =>', '                print("n")'], True),
@@ -754,6 +854,18 @@ def c09_cells():
         ('missing-field-assignment', ['self.x := a'], False),
         ('all-assigned', ['self.x := a', 'self.y := a'], True),
     ]
+    # a child that declares a field under the name of a parent's field has to assign it itself before reading it
+    INH = [
+        ('child-redeclared-read-before-assign', ['print(self.count)', 'self.count := 2'], False),
+        ('child-redeclared-assign-then-read', ['self.count := 2', 'print(self.count)'], True),
+        ('child-redeclared-read-in-expression-before-assign', ['self.count := self.count + 1'], False),
+        ('child-own-field-read-before-assign', ['print(self.extra)', 'self.extra := 2', 'self.count := 3'], False),
+        ('child-own-field-assign-then-read', ['self.extra := 2', 'self.count := 3', 'print(self.extra)'], True),
+    ]
+    for cname, body, must in INH:
+        src = (P + '\nclass PBase\n    def count: Int\n    def __init__(self) =>\n        self.count := 1\n\nclass PChild: PBase\n    def count: Int\n    def extra: Int\n'
+               '    def __init__(self) =>\n' + '\n'.join(ind(body if 'extra' in ' '.join(body) else body + ['self.extra := 0'], 2)) + '\n\ndef po := PChild()\nprint("end")\n')
+        out.append((f'ctor-inherit:{cname}', f'ctor-inherit:{cname}', src, must, {'placement': 'ctor-inherit:' + cname, 'ctx': 'ctor'}))
     for cname, body, must in CTOR:
         src = P + '\nclass Pt\n    def x: Int\n    def y: Int\n    def __init__(self, a: Int) =>\n' + '\n'.join(ind(body, 2)) + '\n\ndef po := Pt(3)\nprint("end")\n'
         out.append((f'ctor:{cname}', f'ctor:{cname}', src, must, {'placement': 'ctor:' + cname, 'ctx': 'ctor'}))
